@@ -168,6 +168,15 @@ impl FakeBitcoind {
         self.st.1.notify_all();
     }
 
+    /// SIGKILLs the current tower process (unblocks whoever waits for it).
+    pub fn kill_victim(&self) {
+        if let Some(pid) = lock(&self.st.0).victim_pid {
+            unsafe {
+                libc::kill(pid as i32, libc::SIGKILL);
+            }
+        }
+    }
+
     /// Answers parked (and future) polls with the last published tip, without waiting for a grant.
     pub fn release_polls(&self) {
         let (m, cv) = &*self.st;
@@ -442,6 +451,8 @@ pub struct RemoteApi {
     pub grpc_calls: std::sync::atomic::AtomicU64,
     /// a request died at the transport level (connection refused / reset): the process is gone or going
     pub transport_failed: AtomicBool,
+    /// bound on every call, in milliseconds (read when a call starts)
+    pub call_timeout_ms: std::sync::atomic::AtomicU64,
 }
 
 // body limits of the HTTP front-end (teos/src/api/http.rs): requests beyond them cannot be sent over
@@ -487,7 +498,7 @@ impl RemoteApi {
             Err(format!("cannot connect to the private API: {last}"))
         })?;
         let internal = rt.block_on(async { Channel::from_shared(format!("http://127.0.0.1:{internal_port}")).map_err(|e| e.to_string())?.connect().await.map_err(|e| format!("internal API: {e:?}")) })?;
-        Ok(RemoteApi { http, rt, private: Mutex::new(PrivateTowerServicesClient::new(channel)), internal: Mutex::new(PublicTowerServicesClient::new(internal)), http_calls: Default::default(), grpc_calls: Default::default(), transport_failed: AtomicBool::new(false) })
+        Ok(RemoteApi { http, rt, private: Mutex::new(PrivateTowerServicesClient::new(channel)), internal: Mutex::new(PublicTowerServicesClient::new(internal)), http_calls: Default::default(), grpc_calls: Default::default(), transport_failed: AtomicBool::new(false), call_timeout_ms: std::sync::atomic::AtomicU64::new(45_000) })
     }
 
     fn st(&self, s: tonic::Status) -> ApiErr {
@@ -497,9 +508,23 @@ impl RemoteApi {
         ApiErr::Status(s.code(), s.message().to_string())
     }
 
+    /// Drives one gRPC call with a generous wall-clock bound (a call that never returns is reported as
+    /// `DeadlineExceeded`, not waited for).
+    fn grpc<T>(&self, fut: impl std::future::Future<Output = Result<tonic::Response<T>, tonic::Status>>) -> Result<tonic::Response<T>, tonic::Status> {
+        self.rt.block_on(async {
+            match tokio::time::timeout(Duration::from_millis(self.call_timeout_ms.load(Ordering::SeqCst)), fut).await {
+                Ok(r) => r,
+                Err(_) => Err(tonic::Status::new(Code::DeadlineExceeded, "no answer within the harness's bound")),
+            }
+        })
+    }
+
     fn post<T: serde::de::DeserializeOwned>(&self, path: &str, body: Vec<u8>) -> Result<T, ApiErr> {
         self.http_calls.fetch_add(1, Ordering::SeqCst);
-        let r = crate::e5::raw_request(self.http, "POST", path, Some("application/json"), &body, Duration::from_secs(60)).map_err(|e| {
+        let r = crate::e5::raw_request(self.http, "POST", path, Some("application/json"), &body, Duration::from_millis(self.call_timeout_ms.load(Ordering::SeqCst))).map_err(|e| {
+            if e.contains("timed out") || e.contains("WouldBlock") || e.contains("Resource temporarily unavailable") {
+                return ApiErr::Status(Code::DeadlineExceeded, format!("no answer within the harness's bound: {e}"));
+            }
             self.transport_failed.store(true, Ordering::SeqCst);
             ApiErr::Status(Code::Internal, format!("transport: {e}"))
         })?;
@@ -519,8 +544,8 @@ impl RemoteApi {
             return self.post("/register", body);
         }
         self.grpc_calls.fetch_add(1, Ordering::SeqCst);
-        let mut c = lock(&self.internal);
-        self.rt.block_on(c.register(Request::new(req))).map(|r| r.into_inner()).map_err(|e| self.st(e))
+        let mut c = lock(&self.internal).clone();
+        self.grpc(c.register(Request::new(req))).map(|r| r.into_inner()).map_err(|e| self.st(e))
     }
     pub fn add_appointment(&self, req: common_msgs::AddAppointmentRequest) -> Result<common_msgs::AddAppointmentResponse, ApiErr> {
         let body = serde_json::to_vec(&req).unwrap();
@@ -528,8 +553,8 @@ impl RemoteApi {
             return self.post("/add_appointment", body);
         }
         self.grpc_calls.fetch_add(1, Ordering::SeqCst);
-        let mut c = lock(&self.internal);
-        self.rt.block_on(c.add_appointment(Request::new(req))).map(|r| r.into_inner()).map_err(|e| self.st(e))
+        let mut c = lock(&self.internal).clone();
+        self.grpc(c.add_appointment(Request::new(req))).map(|r| r.into_inner()).map_err(|e| self.st(e))
     }
     pub fn get_appointment(&self, req: common_msgs::GetAppointmentRequest) -> Result<common_msgs::GetAppointmentResponse, ApiErr> {
         let body = serde_json::to_vec(&req).unwrap();
@@ -537,8 +562,8 @@ impl RemoteApi {
             return self.post("/get_appointment", body);
         }
         self.grpc_calls.fetch_add(1, Ordering::SeqCst);
-        let mut c = lock(&self.internal);
-        self.rt.block_on(c.get_appointment(Request::new(req))).map(|r| r.into_inner()).map_err(|e| self.st(e))
+        let mut c = lock(&self.internal).clone();
+        self.grpc(c.get_appointment(Request::new(req))).map(|r| r.into_inner()).map_err(|e| self.st(e))
     }
     pub fn get_subscription_info(&self, req: common_msgs::GetSubscriptionInfoRequest) -> Result<common_msgs::GetSubscriptionInfoResponse, ApiErr> {
         let body = serde_json::to_vec(&req).unwrap();
@@ -546,28 +571,28 @@ impl RemoteApi {
             return self.post("/get_subscription_info", body);
         }
         self.grpc_calls.fetch_add(1, Ordering::SeqCst);
-        let mut c = lock(&self.internal);
-        self.rt.block_on(c.get_subscription_info(Request::new(req))).map(|r| r.into_inner()).map_err(|e| self.st(e))
+        let mut c = lock(&self.internal).clone();
+        self.grpc(c.get_subscription_info(Request::new(req))).map(|r| r.into_inner()).map_err(|e| self.st(e))
     }
 
     pub fn get_all_appointments(&self) -> Vec<common_msgs::AppointmentData> {
-        let mut c = lock(&self.private);
+        let mut c = lock(&self.private).clone();
         self.rt.block_on(c.get_all_appointments(Request::new(()))).expect("get_all_appointments").into_inner().appointments
     }
     pub fn get_tower_info(&self) -> msgs::GetTowerInfoResponse {
-        let mut c = lock(&self.private);
+        let mut c = lock(&self.private).clone();
         self.rt.block_on(c.get_tower_info(Request::new(()))).expect("get_tower_info").into_inner()
     }
     pub fn get_users(&self) -> Vec<Vec<u8>> {
-        let mut c = lock(&self.private);
+        let mut c = lock(&self.private).clone();
         self.rt.block_on(c.get_users(Request::new(()))).expect("get_users").into_inner().user_ids
     }
     pub fn get_user(&self, user_id: Vec<u8>) -> Option<msgs::GetUserResponse> {
-        let mut c = lock(&self.private);
+        let mut c = lock(&self.private).clone();
         self.rt.block_on(c.get_user(Request::new(msgs::GetUserRequest { user_id }))).ok().map(|r| r.into_inner())
     }
     pub fn stop(&self) -> bool {
-        let mut c = lock(&self.private);
+        let mut c = lock(&self.private).clone();
         self.rt.block_on(c.stop(Request::new(()))).is_ok()
     }
 }
